@@ -65,6 +65,7 @@ func main() {
 		runSpellings(r)
 		lap("fidelity")
 	}
+	runJarHosts(r)
 	if r.Quick() {
 		enumerateJar(r, jarDepth, jarAlpha, nil)
 	} else {
